@@ -12,13 +12,27 @@ Init == chunk \in 0..((N + ChunkSize - 1) \div ChunkSize - 1) /\ idx = -1
 Next == idx = -1 /\ idx' \in (chunk * ChunkSize)..((chunk + 1) * ChunkSize - 1) /\ idx' < N /\ UNCHANGED chunk
 Spec == Init /\ [][Next]_vars
 
+\* "a valid Hamming codeword": the row code spanned by what the library's generate() returns must BE a Hamming code - a
+\* single-error-correcting code, i.e. the columns of its parity-check matrix are non-zero and pairwise different (two equal
+\* columns = two code words at distance 2).  The rows are judged with the learned columns, so without this clause a generator
+\* matrix with a copied parity row would be judged by itself.  Evaluated once (constant-level definitions are cached).
+HamOK(h) == (\A j \in 1..Len(h) : h[j] # 0) /\ (\A i, j \in 1..Len(h) : i # j => h[i] # h[j])
+H16ok == HamOK(D.h16)
+H17ok == HamOK(D.h17)
+\* (D) informational: the learned columns against annex B.3 (the codes as shortened cyclic codes, BlockCodes.tla)
+BC == INSTANCE BlockCodes
+StdCols(n, k, g, r, ext) == [j \in 1..n |-> IF j <= k THEN BC!CyclicEnc(2 ^ (k - j), g, r, n, ext) % (2 ^ (n - k)) ELSE 2 ^ (n - j)]
+H16std == D.h16 = StdCols(16, 11, 19, 4, TRUE)
+H17std == D.h17 = StdCols(17, 12, 37, 5, FALSE)
+
 Judge(i) ==
   LET s == D.samples[i + 1]
       P == Params(s.kind)
       h == IF P.n = 16 THEN D.h16 ELSE D.h17
       csbits == SpecCsBits(P, s.cw)
       why ==
-        IF s.cwlen # P.R * P.C THEN "EncodedLength"
+        IF ~(IF P.n = 16 THEN H16ok ELSE H17ok) THEN "RowCodeIsAHammingCode"
+        ELSE IF s.cwlen # P.R * P.C THEN "EncodedLength"
         ELSE IF s.dec # s.msg THEN "ExtractorReturnsMessage"
         ELSE IF \E r \in 0..(P.R - 2) : Syn(RowWord(P, s.cw, r), P.n, h) # 0 THEN "RowsAreHammingWords"
         ELSE IF \E c \in 0..(P.C - 1) : ColParity(P, s.cw, c) # (IF s.odd THEN 1 ELSE 0) THEN "ColumnsSatisfyParity"
@@ -27,7 +41,8 @@ Judge(i) ==
         ELSE IF s.cw2 # s.cw \/ s.cw3 # s.cw THEN "ThreeEncodingsAgree"
         ELSE "ok"
       dr ==
-        IF \E b \in 0..(P.M - 1) : SpecMsgBit(P, s.cw, b) # BitAt(s.msg, b) THEN "message-cells-differ-from-ETSI-layout"
+        IF ~(IF P.n = 16 THEN H16std ELSE H17std) THEN "row-code-differs-from-the-Hamming-code-of-annex-B.3"
+        ELSE IF \E b \in 0..(P.M - 1) : SpecMsgBit(P, s.cw, b) # BitAt(s.msg, b) THEN "message-cells-differ-from-ETSI-layout"
         ELSE IF s.kind = "128_72" /\ s.cscalc # CS5(s.msg) THEN "FiveBitChecksum-differs-from-B.3.11"
         ELSE IF s.kind = "128_72" /\ MsbInt(csbits) # s.cscalc THEN "cs5-cells-differ-from-ETSI-layout"
         ELSE IF s.kind = "68_28" /\ MsbInt(csbits) # s.cscalc THEN "crc8-cells-differ-from-ETSI-layout"
